@@ -17,6 +17,9 @@ TRUSTED = ["translators/opclasses.py (AST translation of the algebra classes int
 ASSUMPTIONS = ["dtype promotion (single/double, real/complex result types) is only exercised by the search",
                "adjoints (conjugation), GeneralizedBlockedOperator and transposes of composite discrete operators are only exercised "
                "by the search",
+               "value semantics (evaluating an expression leaves every operand's cached weak form / matrix / coefficients "
+               "unchanged) is not a theorem of the expression model, which has no store: it is searched (operands re-read after "
+               "every program, dense single/double/complex and sparse pools) and tied syntactically in C18 (inplace_updates = [])",
                "operands of the correspondence run are stub-assembled operators with exactly known matrices; real kernels "
                "enter in the thorough search only"]
 
